@@ -25,6 +25,7 @@ import (
 	"go/types"
 	"os"
 	"path/filepath"
+	"regexp"
 	"sort"
 	"strings"
 )
@@ -41,6 +42,8 @@ type xl struct {
 	depth  int
 	prefix []string // rename prefixes of inlined functions (innermost last)
 	locals []map[string]string
+	objs   map[types.Object]string // every declared variable has its own name: shadowing declarations get a suffix
+	taken  map[string]bool
 }
 
 func die(pos token.Pos, fset *token.FileSet, f string, a ...interface{}) {
@@ -67,14 +70,30 @@ func sanitize(s string) string {
 	return b.String()
 }
 
-func (x *xl) rename(name string) string {
-	// parameters and locals of inlined functions get the function's name as prefix
-	for i := len(x.locals) - 1; i >= 0; i-- {
-		if r, ok := x.locals[i][name]; ok {
-			return r
-		}
+// name of the variable an identifier denotes.  Go's scoping is resolved by the type checker: two declarations of
+// one name (a shadowing := in an inner block, the parameters of an inlined function) are two variables here too;
+// the first keeps the plain name, later ones get name$2, name$3, ...
+func (x *xl) identName(id *ast.Ident) string {
+	obj := x.info.Uses[id]
+	if obj == nil {
+		obj = x.info.Defs[id]
 	}
-	return name
+	if obj == nil {
+		return id.Name
+	}
+	if _, isVar := obj.(*types.Var); !isVar {
+		return id.Name
+	}
+	if n, ok := x.objs[obj]; ok {
+		return n
+	}
+	n := id.Name
+	for k := 2; x.taken[n]; k++ {
+		n = fmt.Sprintf("%s$%d", id.Name, k)
+	}
+	x.taken[n] = true
+	x.objs[obj] = n
+	return n
 }
 
 func (x *xl) v(name string) string {
@@ -85,7 +104,11 @@ func (x *xl) v(name string) string {
 	return "v_" + sanitize(name)
 }
 
+var suffixRe = regexp.MustCompile(`\$[0-9]+`)
+
 func (x *xl) p(name string) string {
+	// pointers are named by what they point to; the suffix that tells shadowing declarations apart is not part of that
+	name = suffixRe.ReplaceAllString(name, "")
 	if _, ok := x.ptrs[name]; !ok {
 		x.ptrs[name] = len(x.porder)
 		x.porder = append(x.porder, name)
@@ -122,7 +145,7 @@ func (x *xl) constOf(e ast.Expr) (string, bool) {
 func (x *xl) varName(e ast.Expr) (string, bool) {
 	switch t := e.(type) {
 	case *ast.Ident:
-		return x.rename(t.Name), true
+		return x.identName(t), true
 	case *ast.SelectorExpr:
 		if b, ok := x.varName(t.X); ok {
 			return b + "." + t.Sel.Name, true
@@ -178,7 +201,7 @@ func (x *xl) expr(e ast.Expr) string {
 		if t.Name == "nil" {
 			return "(EConst 0)"
 		}
-		return "(EVar " + x.v(x.rename(t.Name)) + ")"
+		return "(EVar " + x.v(x.identName(t)) + ")"
 	case *ast.SelectorExpr:
 		if n, ok := x.varName(t); ok {
 			return "(EVar " + x.v(n) + ")"
@@ -305,9 +328,7 @@ func (x *xl) call(c *ast.CallExpr) []string {
 					if i >= len(c.Args) {
 						die(c.Pos(), x.fset, "call of %s: too few arguments", id.Name)
 					}
-					nn := id.Name + "$" + n.Name
-					out = append(out, "SSet (LVar "+x.v(nn)+") "+x.expr(c.Args[i]))
-					loc[n.Name] = nn
+					out = append(out, "SSet (LVar "+x.v(x.identName(n))+") "+x.expr(c.Args[i]))
 					i++
 				}
 			}
@@ -349,15 +370,7 @@ func (x *xl) lval(e ast.Expr) string {
 
 func (x *xl) declare(e ast.Expr) {
 	// a := inside an inlined function: rename the new local
-	if len(x.locals) == 0 {
-		return
-	}
-	if id, ok := e.(*ast.Ident); ok && id.Name != "_" {
-		top := x.locals[len(x.locals)-1]
-		if _, ok := top[id.Name]; !ok {
-			top[id.Name] = fmt.Sprintf("inl%d$%s", x.depth, id.Name)
-		}
-	}
+	// names are resolved through the type checker's objects (identName)
 }
 
 func (x *xl) stmt(s ast.Stmt) []string {
@@ -573,7 +586,8 @@ func main() {
 		fmt.Fprintln(os.Stderr, "goxlate: type check:", err)
 		os.Exit(3)
 	}
-	x := &xl{fset: fset, info: info, pkg: pkg, funcs: map[string]*ast.FuncDecl{}, vars: map[string]int{}, ptrs: map[string]int{}}
+	x := &xl{fset: fset, info: info, pkg: pkg, funcs: map[string]*ast.FuncDecl{}, vars: map[string]int{}, ptrs: map[string]int{},
+		objs: map[types.Object]string{}, taken: map[string]bool{}}
 	for _, f := range files {
 		for _, d := range f.Decls {
 			if fd, ok := d.(*ast.FuncDecl); ok && fd.Recv == nil {
@@ -734,7 +748,7 @@ func main() {
 			r1, ok1 := ret.Results[1].(*ast.Ident)
 			if ok0 && ok1 {
 				fmt.Fprintf(&b, "Definition prepareFds_info : prepinfo := (src_prepareFds, v_%s, v_%s, v_%s).\n",
-					sanitize(fd.Type.Params.List[0].Names[0].Name), sanitize(r0.Name), sanitize(r1.Name))
+					sanitize(x.identName(fd.Type.Params.List[0].Names[0])), sanitize(x.identName(r0)), sanitize(x.identName(r1)))
 			}
 		}
 	}
